@@ -244,6 +244,29 @@ func (s *fakeServer) connect(id string) {
 		h(fakeChannel{id})
 	}
 }
+// connectFresh announces a connection only if the id is not connected (the real server refuses a duplicate)
+func (s *fakeServer) connectFresh(id string) bool {
+	lm := s.idLock(id)
+	lm.Lock()
+	defer lm.Unlock()
+	s.mu.Lock()
+	if s.clients[id] {
+		s.mu.Unlock()
+		return false
+	}
+	s.clients[id] = true
+	h := s.onNew
+	s.mu.Unlock()
+	if h != nil {
+		h(fakeChannel{id})
+	}
+	return true
+}
+func (s *fakeServer) isConnected(id string) bool {
+	s.mu.Lock()
+	defer s.mu.Unlock()
+	return s.clients[id]
+}
 func (s *fakeServer) disconnect(id string) {
 	lm := s.idLock(id)
 	lm.Lock()
